@@ -161,6 +161,9 @@ def gen_single(seed, tier, focus):
             ops.append(["read"])
         else:
             ops.append(["readrange", ch.randrange(W, ("roff", i), 1 << 20), ch.pick(W, ("rlen", i), [None, 0, 1, 17] + sz[3:9])])
+    if focus == "C17":
+        # the same client creates other mutable files first: per-file secrets must not carry over from one file to the next
+        cfg["precreate"] = ch.pick("config", "precreate", [0, 1, 2, 2])
     faults = []
     if focus == "C47":
         nf = ch.weighted("faults", "nf", [(0, 1), (1, 4), (2, 3), (3, 2)])
@@ -362,6 +365,16 @@ def exec_single(case):
             return True
 
         last_write = ["create"]
+        other_caps = []
+        for j in range(cfg.get("precreate", 0)):
+            st, res = drive(w.create_mutable_file(MutableData(b"an earlier file %d" % j), version=[SDMF_VERSION, MDMF_VERSION][j % 2]), "precreate")
+            if st == "ok":
+                other_caps.append(res.get_uri())
+                if res.get_storage_index() != si_of_cap(res.get_uri()):
+                    bad("C17", "mutable-si", "node's storage index differs from the specified derivation from its cap")
+                probe("precreated")
+            settle(300_000)
+            writes_seen[0] = len(mon.writes)
         for opi, op in enumerate(case["ops"]):
             kind = op[0]
             if kind in ("overwrite", "modify", "update"):
@@ -480,7 +493,10 @@ def exec_single(case):
                 bad("C09", "faultfree-read-failed", "final read failed after ops %r: %s" % (case["ops"], res.getTraceback()[-600:]),
                     sig="C09.faultfree-read-failed.after-%s.%s" % (last_write[0], err_site(res)))
         if cap is not None:
-            mon.check_secrets({si: writekey_of_cap(cap)})
+            wk = {si: writekey_of_cap(cap)}
+            for oc in other_caps:
+                wk[si_of_cap(oc)] = writekey_of_cap(oc)
+            mon.check_secrets(wk)
             probe("writev-observed", len(mon.writes))
         return finish(g, viol, probes, case, props + (("C11",) if focus == "C09" else ()))
     finally:
